@@ -24,7 +24,7 @@ claim('C03', "Deductive proof (Verus) of the flow: the only events that start a 
 claim('C04', "Deductive proof (Verus) of the per-role recovery obligations: sender retransmits the whole window exactly when the timeout has elapsed since the last transmission (and transmits a fresh window at once), retry counter == consecutive unusable receives < 6; receiver re-acknowledges the last in-sequence block whenever a non-sequential DATA block arrives, never discards buffered blocks on a timeout. Their composition into 'the transfer completes' is a written argument (DESIGN.md), not machine-checked: liveness of two parties is not a function contract.",
       "Liveness itself is not proved; only the local obligations are.", T, "DESIGN.md 4 C04")
 claim('C05', "Deductive proof (Verus): for every received datagram and every Server state satisfying the representation invariant, one iteration of listen() (decode result is havoc; dispatch, handle_rrq, handle_wrq incl. the lifted closure, route_packet, parse_options, accept_request, check_file_exists) has no failing arithmetic, index, unwrap or callee precondition, re-establishes the invariant (duplicate_packets<255, largest_block_size<=65464, so the single-port buffer size+4 is bounded) and returns to the loop head; listen has postcondition false (never returns). Decoder panic-freedom (Packet::deserialize and parse_*) is proved for all byte strings.",
-      "Not expressible: OS-level failures, panics inside the trusted I/O glue, printing to a closed stdout, allocation failure, worker threads.", "Verus panic-freedom obligations + representation invariant of Server", "DESIGN.md 4 C05")
+      "Stand-ins for violations found by the verifier: tools/check.py attaches a concrete failing run from the bounded witness finder (replay/src/bin/scenarios.rs) where it finds one. Not expressible: OS-level failures, panics inside the trusted I/O glue, printing to a closed stdout, allocation failure, worker threads.", "Verus panic-freedom obligations + representation invariant of Server", "DESIGN.md 4 C05")
 claim('C06', "Deductive proof (Verus): the per-datagram decision table is a loop invariant of listen() over a ghost effect log: read-only + WRQ => exactly one ERROR 2 from the listening socket and nothing else; missing file on RRQ => exactly ERROR 1; existing target without overwrite => exactly ERROR 6; a refusal never coexists with a started transfer; handle_wrq has precondition !read_only.",
       "'No effect on disk' is represented as 'no Spawned event' because only workers touch files; File::create truncation is std behaviour; Path::exists is an uninterpreted oracle.", "Verus loop invariant over a ghost effect log", "DESIGN.md 4 C06")
 claim('C07', "Deductive proof (Verus), safety part: send_file returns Ok only when the last receive was ACK(wire(nblocks)) and the window is exhausted, never emits a block beyond nblocks, returns Err as soon as a receive yields ERROR (no loop head is reached with last==ERROR), check_response stops the transfer on ERROR / ACK n!=0, retry counter invariant retry_cnt == consecutive failed receives < MAX_RETRIES (the loop cannot continue once it reaches 6); receive_file returns right after acknowledging the first short block. Termination against a peer that keeps sending stale ACKs is NOT claimed (true of the real code).",
@@ -35,11 +35,11 @@ claim('C09', "Deductive proof (Verus): parse_options returns Ok exactly when eve
       "'The transfer uses the values' relies on C01/C08 being proved for arbitrary worker fields and on the trusted wrapper passing them on. Lower-casing (str::to_lowercase) is an uninterpreted function.", "Verus postconditions incl. prophetic &mut iteration", "DESIGN.md 4 C09")
 claim('C10', "Deductive proof (Verus) that Packet::deserialize, parse_rq, parse_oack, parse_data, parse_ack, parse_error, Convert::to_u16, Opcode/ErrorCode::from_u16 never panic or index out of bounds for ANY byte string of any length, and reject short datagrams, unknown opcodes and error codes. Convert::to_string's contract is ASSUMED (iterator adapters / from_utf8 are outside Verus) and checked by a bounded exhaustive enumeration in the thorough tier (labelled bounded).",
       "Stability (decode-encode-decode) is covered only through C11's kinds.", "Verus panic-freedom + postconditions", "DESIGN.md 4 C10")
-claim('C11', "Deductive proof (Verus) of Opcode/ErrorCode::from_u16 (exactly 1..6 / 0..7 accepted, value preserved), OptionType::as_str/from_str, Convert::to_u16 big-endian; the as_bytes conversions use u16::to_be_bytes, which Verus cannot specify, so their contracts are assumed in Verus and proved by complete (loop-free, full-domain) Kani harnesses in the thorough tier. Encoder layout and full round trip of the six packet kinds: see evidence coverage.not_covered.",
-      "Partial coverage, stated in the evidence.", "Verus postconditions + complete Kani harnesses for to_be_bytes-based conversions", "DESIGN.md 4 C11")
-claim('C12', "Deductive proof (Verus) of the two dispatch clauses only: a well-formed non-request datagram is forwarded to clients[from] (its own source endpoint) and to no other channel, and a source that owns no transfer (or whose channel is closed) is answered with ERROR 4 from the listening socket. Interleavings of K clients, per-transfer ephemeral ports, kernel filtering after connect() and thread scheduling are concurrency / OS behaviour outside contract-based verification and are NOT claimed.",
+claim('C11', "PARTIAL. Deductive proof (Verus) that the decoder returns exactly what the RFC 1350/2347 wire layout denotes for all six packet kinds (relation decodes_to: big-endian opcode/block/error numbers, NUL-terminated strings decoded exactly - not normalised -, option pairs with recognised lower-cased names and parsed decimal values, unknown pairs skipped; the option loop by a continuation-style invariant), of Opcode/ErrorCode::from_u16 (exactly 1..6 / 0..7, value preserved) and OptionType::as_str/from_str. Opcode/ErrorCode::as_bytes use u16::to_be_bytes, which Verus cannot specify: their contracts are assumed in Verus and PROVED by complete (full-domain, fully unwound) Kani harnesses, as is the ACK layout + round trip for all u16. NOT COVERED: the serialize_* encoders and TransferOption::as_bytes (concat / to_be_bytes / usize::to_string cannot be specified in Verus here; Kani on Vec-bearing encoders did not finish), hence no machine-checked round trip for RRQ/WRQ/DATA/ERROR/OACK.",
+      "Partial coverage as stated; utf8_decode, str_lower and parse::<usize> are uninterpreted functions.", "Verus postconditions (wire layout as a relation) + complete Kani harnesses for to_be_bytes-based conversions", "DESIGN.md 4 C11")
+claim('C12', "Deductive proof (Verus) of the two dispatch clauses only: a well-formed non-request datagram is forwarded to clients[from] (its own source endpoint) and to no other channel, and a source that owns no transfer (or whose channel is closed) is answered with ERROR 4 from the listening socket; in single-port mode the listening socket's receive buffer, which all running transfers share, never shrinks and is at least the block size of every transfer started. Interleavings of K clients, per-transfer ephemeral ports, kernel filtering after connect() and thread scheduling are concurrency / OS behaviour outside contract-based verification and are NOT claimed.",
       "Only the per-datagram routing contract is decided; HashMap behaviour is vstd's model plus an assumed key model for SocketAddr.", "Verus postcondition of route_packet + listen invariant", "DESIGN.md 4 C12")
-claim('C13', "Deductive proof (Verus) of clause 1 only: at every exit of receive_file the bytes written are f0 followed by a prefix of the concatenation of the accepted blocks (Window::empty contract incl. its error case; only empty writes). The delete/keep decision in the thread wrapper Worker::receive is trusted glue (unverified); clause 2 (a stale worker must not delete a newer completed upload, defect D7) is a history over two threads and is a recorded known finding, not decided by this check.",
+claim('C13', "Deductive proof (Verus) of clause 1 only: at every exit of receive_file the bytes written are f0 followed by a prefix of the concatenation of the accepted blocks (Window::empty contract incl. its error case; only empty writes), and the server starts every receive worker with the configured clean-on-error policy. The delete/keep decision in the thread wrapper Worker::receive is trusted glue (unverified); clause 2 (a stale worker must not delete a newer completed upload, defect D7) is a history over two threads and is a recorded known finding, not decided by this check.",
       "See known_findings.txt D7.", T, "DESIGN.md 4 C13, 6 D7")
 claim('C15', "Deductive proof (Verus): all sender/receiver invariants are stated over true (unbounded) block indices with the code's u16 values related by wire(j) = j mod 65536; wrapping_add/wrapping_sub obligations are discharged for all values; an ACK is accepted only at wire distance < window length <= 65535, hence attributed to exactly one true index; no bound on the number of blocks.",
       "Inherent to 16-bit numbering: a datagram delayed by more than 65535 blocks is indistinguishable.", T, "DESIGN.md 4 C15")
